@@ -633,9 +633,9 @@ class C14(Check):
                    ("main", "EolInv", "recognizers_eol_invariant"), ("main", "EolInv", "recognizers_eolRun_invariant"),
                    ("main", "BlankPrefix", "parseBlocks_blank_prefix_partial"), ("main", "BlankPrefix", "skipLoop_blank_prefix_partial"),
                    ("main", "BlankPrefix", "parseBlocks_blank_prefix_of_total"), ("main", "Uncond", "parseBlocks_blank_prefix"),
-                   ("main", "EolCR", "parseBlocks_cr"), ("main", "EolCRLFSim", "parseBlocks_crlf_nobracket"), ("main", "EolFinalSimMain", "parseBlocks_final_newline_nobracket"), ("main", "EolCRLFSimLine", "CQ_processLine"), ("main", "EolRefuted", "final_newline_unrestricted_refuted"), ("main", "EolRefuted", "crlf_unrestricted_refuted")]
+                   ("main", "EolCR", "parseBlocks_cr"), ("main", "EolFinalGenMain", "parseBlocks_final_newline"), ("main", "EolCRLFGen", "parseBlocks_crlf_limit"), ("main", "EolCRLFGen", "parseBlocks_crlf_statement_false"), ("main", "EolCRLFSim", "parseBlocks_crlf_nobracket"), ("main", "EolFinalSimMain", "parseBlocks_final_newline_nobracket"), ("main", "EolCRLFSimLine", "CQ_processLine"), ("main", "EolRefuted", "final_newline_unrestricted_refuted"), ("main", "EolRefuted", "crlf_unrestricted_refuted")]
     slow_files = ["EolFinal", "EolCRLF", "EolStruct"]
-    assumptions = ["partial: the padding clause is proved on the concrete block machine (parseBlocks_blank_prefix_partial: parseBlocks (B ++ s) = shifted parseBlocks s for blank-line prefixes B, under the side condition that a CR ending B does not fuse with an LF starting s ; Uncond.parseBlocks_blank_prefix is the statement without any fuel condition, by the totality theorem of the block layer) and for any block machine (nb_shift); all five recognizers are proved independent of the line-ending style and of its presence (recognizers_eol_invariant, any run of CR/LF bytes); the CR clause is proved at the block layer for every input without CR (EolCR.parseBlocks_cr: replacing LF by CR changes nothing but the Source bytes: trees, offsets, lines and normalised labels are literally equal); the CRLF clause and the final-newline clause are proved at the block layer for every input that contains no '[' (EolCRLFSim.parseBlocks_crlf_nobracket: parseBlocks (crlf s) is the image of parseBlocks s under the position map p + number of LF before p, Sources mapped; EolFinalSimMain.parseBlocks_final_newline_nobracket: appending LF to an input that does not end in a line ending nor in '>' changes only the last root, exactly by the relation finRoots: per-line simulations for every block kind, EOF step, stream layer); '[' is excluded because the link-reference-definition reader would need a two-run commutation with fuel independence and, for CRLF, the 999-character limit (finding D24): with '[' the clauses are decided by the correspondence on the variants plus the oracle; for all inputs the exact tree relations are executable checkers (EolFinalDefs, EolCRLFDefs), each refuted without a restriction (EolRefuted: ' <?>' changes the tree but not the safe rendering; a 996-byte label with three line endings is finding D24) and, restricted, proved only for all inputs of length <= 5 over four alphabets and for 65 640 documents of 1-3 lines (coq/slow, compiled in the thorough tier): the unbounded simulation for those two clauses is still open; correspondence on the variants plus the oracle decide them"]
+    assumptions = ["partial: the padding clause is proved on the concrete block machine (parseBlocks_blank_prefix_partial: parseBlocks (B ++ s) = shifted parseBlocks s for blank-line prefixes B, under the side condition that a CR ending B does not fuse with an LF starting s ; Uncond.parseBlocks_blank_prefix is the statement without any fuel condition, by the totality theorem of the block layer) and for any block machine (nb_shift); all five recognizers are proved independent of the line-ending style and of its presence (recognizers_eol_invariant, any run of CR/LF bytes); the CR clause is proved at the block layer for every input without CR (EolCR.parseBlocks_cr: replacing LF by CR changes nothing but the Source bytes: trees, offsets, lines and normalised labels are literally equal); the final-newline clause is proved at the block layer for EVERY input (EolFinalGenMain.parseBlocks_final_newline: appending LF to a non-empty input that ends neither in a line ending nor in '>' changes only the last root, exactly by the relation finRoots; the '>' exclusion is the contains off-by-one, see DESIGN 12.11c); the CRLF clause is proved for every input without CR whose length keeps every label scan below the 999-step limit in both runs (EolCRLFGen.parseBlocks_crlf_limit: 2 * len (crlf (pad s)) + 9 < 999) and for every input of any length that contains no '[' (parseBlocks_crlf_nobracket); the statement with the bound len (crlf s) < 999 is false (parseBlocks_crlf_statement_false: the limit counts reader steps, and a partly consumed tab costs up to four steps for one byte: a 916-byte witness, same family as finding D24); earlier, weaker forms: (EolCRLFSim.parseBlocks_crlf_nobracket: parseBlocks (crlf s) is the image of parseBlocks s under the position map p + number of LF before p, Sources mapped; EolFinalSimMain.parseBlocks_final_newline_nobracket: appending LF to an input that does not end in a line ending nor in '>' changes only the last root, exactly by the relation finRoots: per-line simulations for every block kind, EOF step, stream layer); '[' is excluded because the link-reference-definition reader would need a two-run commutation with fuel independence and, for CRLF, the 999-character limit (finding D24): with '[' the clauses are decided by the correspondence on the variants plus the oracle; for all inputs the exact tree relations are executable checkers (EolFinalDefs, EolCRLFDefs), each refuted without a restriction (EolRefuted: ' <?>' changes the tree but not the safe rendering; a 996-byte label with three line endings is finding D24) and, restricted, proved only for all inputs of length <= 5 over four alphabets and for 65 640 documents of 1-3 lines (coq/slow, compiled in the thorough tier): the unbounded simulation for those two clauses is still open; correspondence on the variants plus the oracle decide them"]
 
     def jobs(self, seed, tier):
         base = nocr_docs(seed, tier, 1200, 50000)
